@@ -43,6 +43,7 @@ def Wof (strict : Bool) : World String Val String where
   priv := fun n => n.startsWith "_"
   lower := String.toLower
   noneV := .obj "None"
+  isInst := fun v => v == .obj "self"
 
 def W0 : World String Val String := Wof false
 
